@@ -304,6 +304,16 @@ def coherent(ctx, mol, hist, last_op):
             pass
         ctx.violation('derived-view-raises/sssr/%s/after-%s' % (type(e).__name__, last_op), '%r; history %s' % (e, hist[-6:]), {'history': hist})
         return False
+    # the views share one cache: what was read first must not matter (the rebuild is always read string first)
+    pre = (None, 'smiles_atoms_order', 'atoms_order', 'hash')[len(hist) % 4]
+    if pre and not skip_stereo:
+        ctx.count('views.read-before-string.' + pre)
+        try:
+            read(mol, pre)
+        except Exception as e:
+            if not invalid:
+                ctx.violation('derived-view-raises/%s/%s/after-%s' % (pre, type(e).__name__, last_op), '%r after %s' % (e, hist[-5:]), {'history': hist})
+                return False
     for name in VIEWS:
         if skip_stereo and name in ('stereo', 'str', 'atoms_order', 'hash_eq'):
             continue
